@@ -284,6 +284,8 @@ def correspondence(pid, tier, seed, res, lines_extra=None):
     t0 = time.time()
     # both sides are time-capped; a capped case is inconclusive, never a value
     op_ms = {"C11": 5000, "C12": 5000, "C13": 8000}.get(pid, 30000) * (6 if tier == "thorough" else 1)
+    if pid == "C19" and tier == "thorough":
+        op_ms = 400000      # a full trial division of a 64-bit prime takes minutes in the model (boxed big numbers)
     os.environ["VERIF_STALL_S"] = str(op_ms // 1000 + 3)
     go, mo = run_both(lines, go_env={"VERIF_OP_TIMEOUT_MS": str(op_ms)})
     go, mo = t3_postprocess(pid, lines, go, mo)
